@@ -292,6 +292,8 @@ fn documents(thorough: bool) -> Vec<String> {
     let names = [
         "b", "i", "p", "a", "img", "code", "span", "div", "ol", "li", "mx-reply", "table", "td", "blockquote", "font", "strike", "script", "iframe", "form",
         "x-foo", "object", "marquee", "button", "select", "svg", "h1",
+        // every element of the allow-list appears (a clean document with it must come back unchanged)
+        "del", "h2", "h3", "h4", "h5", "h6", "ul", "sup", "sub", "u", "strong", "em", "s", "hr", "br", "thead", "tbody", "tr", "th", "caption", "pre", "details", "summary",
     ];
     let universe = |el: &str| -> Vec<(&'static str, &'static str)> {
         let mut v: Vec<(&str, &str)> = vec![("onclick", "x()"), ("style", "color:red"), ("id", "k"), ("class", "evil")];
@@ -492,7 +494,7 @@ pub fn run(tier: &str) -> Report {
         samples,
     ));
     Report {
-        bound: format!("{} documents (20 element names x attribute singles and ordered pairs x 3 contents, all ordered name pairs, fragment sequences up to length {}, nesting 98..103) x {} sanitizer configurations (strict / compat, with and without reply-fallback removal, remove_elements in both call orders, and Override / Add lists for schemes, attributes, classes and elements, deny_schemes, remove_attributes, remove_classes, max_depth)", docs.len(), if tier == "thorough" { 5 } else { 4 }, configs().len()),
+        bound: format!("{} documents (49 element names incl. every allowed one x attribute singles and ordered pairs x 3 contents, all ordered name pairs, fragment sequences up to length {}, nesting 98..103) x {} sanitizer configurations (strict / compat, with and without reply-fallback removal, remove_elements in both call orders, and Override / Add lists for schemes, attributes, classes and elements, deny_schemes, remove_attributes, remove_classes, max_depth)", docs.len(), if tier == "thorough" { 5 } else { 4 }, configs().len()),
         cases: n,
         obligations: vec![
             ("output_has_only_allowed_elements_attributes_schemes_classes_and_depth", n, acc.0),
